@@ -15,7 +15,7 @@ use vcommon::{
 pub const RULE: &str = "cases = (target type, sequence of 1..8 NUL-terminated frames drawn from \
 valid / wrong-shape / malformed / whitespace-padded categories with sizes dialled around the \
 256-byte growth steps, chunking of the byte stream, Pending schedule); each case is also run \
-one-read and byte-at-a-time; short streams are cut exhaustively (every single cut and pair of \
+one-read and byte-at-a-time; a lane of large bursts mixes frames of 4..90 KiB (up to 350 growth steps) with small ones; short streams are cut exhaustively (every single cut and pair of \
 cuts, every composition for <= 12 bytes). Non-trivial = at least 2 frames and (a cut strictly \
 inside a frame, or a non-decodable or padded frame followed by another frame); distinct by hash \
 of (target, frames, cuts).";
@@ -112,7 +112,8 @@ pub fn check_case(case: &RxCase, stats: &mut Stats) -> CaseResult {
     let run = case.run();
     case.judge(&run)?;
     // the same frames under the two extreme chunkings
-    for plan in [ChunkPlan::One, ChunkPlan::ByteAtATime] {
+    let big = case.stream().len() > 16 * 1024;
+    for plan in [ChunkPlan::One, if big { ChunkPlan::Fixed(777) } else { ChunkPlan::ByteAtATime }] {
         let mut c = case.clone();
         c.cuts = resolve_cuts(&plan, &case.stream());
         if c.cuts == case.cuts {
@@ -217,6 +218,37 @@ pub fn run(ctx: &Ctx) -> i32 {
         || case_strategy(8, 6),
         |case, stats| check_case(case, stats),
     );
+
+    // large bursts: 2..5 frames of which some are 4..90 KiB (hundreds of growth steps), so that a
+    // burst keeps several undelivered frames buffered behind / in front of a very long one
+    let (s5, v5) = run_shards(
+        ctx,
+        "large-bursts",
+        shards,
+        cases / 25,
+        || {
+            case_strategy(5, 350).prop_map(|mut c| {
+                if c.stream().len() > 16 * 1024 && c.cuts.len() > 4096 {
+                    // byte-at-a-time over a long stream adds nothing the short lanes do not cover
+                    c.cuts = resolve_cuts(&ChunkPlan::Fixed(1 + c.cuts.len() % 4099), &c.stream());
+                }
+                c
+            })
+        },
+        |case, stats| {
+            stats.class("lane:large-bursts");
+            let len = case.stream().len();
+            if len > 16 * 1024 {
+                stats.class("stream>16KiB");
+            }
+            if len > 64 * 1024 {
+                stats.class("stream>64KiB");
+            }
+            check_case(case, stats)
+        },
+    );
+    stats.merge(s5);
+    viol.extend(v5);
 
     // exhaustive cuts of short streams
     let shorts = short_streams();
